@@ -21,7 +21,9 @@ SPEC = {
                    "server with a leftover report and compare POSTed bytes); two directed cases replay known "
                    "findings 13 and 14; a quarter of the weeks have 2-3 DIFFERENT programs whose approved builds "
                    "record counters and stacks of the SAME names, approved / rated / omitted differently per program, "
-                   "files in random order; 10% of the cases (kind seq) are HISTORIES: this one process runs a new "
+                   "files in random order; 8% have two different programs with the same base name, version and platform, one "
+                   "approved; half of the cases name the count files as rotate1 does (begin days spread over the "
+                   "week); 10% of the cases (kind seq) are HISTORIES: this one process runs a new "
                    "uploader two or three times on the same directory while the count files change in between "
                    "(run while the files are active - programs count on - files expire - run; or run consuming a "
                    "week - same file names written for the next week - run), each run compared with the model and "
